@@ -98,6 +98,11 @@ structure OPClient where
   deriving DecidableEq, Repr, Inhabited
 
 namespace OPClient
+/-- `client.(HasRedirectGlobs)`: the value handed out by the storage also implements `op.HasRedirectGlobs`
+    (either list opted in; a registration with only one of them returns the empty list for the other) -/
+def is_HasRedirectGlobs (c : OPClient) : Bool := c.globs.isSome || c.postLogoutGlobs.isSome
+def RedirectURIGlobs (c : OPClient) : List String := c.globs.getD []
+def PostLogoutRedirectURIGlobs (c : OPClient) : List String := c.postLogoutGlobs.getD []
 def GetID (c : OPClient) := c.id
 def AuthMethod (c : OPClient) := c.auth
 def GrantTypes (c : OPClient) := c.grants
